@@ -932,10 +932,10 @@ func loopGen(r *rng, maxops int, w *bufio.Writer) {
 	if r.intn(2) == 0 {
 		add("timer")
 	}
-	if r.intn(5) == 0 {
+	if r.intn(3) == 0 {
 		add("listener")
 	}
-	if r.intn(5) == 0 {
+	if r.intn(3) == 0 {
 		add("packet")
 	}
 	if r.intn(12) == 0 {
@@ -969,7 +969,13 @@ func loopGen(r *rng, maxops int, w *bufio.Writer) {
 				}
 			case 3, 4:
 				if o, ok := pickKind("tcp", "adapter"); ok {
-					return fmt.Sprintf("%s %d %d op=%d", r.pick2("write", "writeall"), o.k, size(), id())
+					n := size()
+					if r.intn(5) == 0 && o.kind == "tcp" {
+						// larger than the socket buffers: the write blocks half way. (Not on an adapted net.Conn: its Write
+						// is a blocking call of the Go runtime and would stall the loop goroutine until the peer reads.)
+						n = r.pick(5000, 20000, 70000)
+					}
+					return fmt.Sprintf("%s %d %d op=%d", r.pick2("write", "writeall"), o.k, n, id())
 				}
 			case 5:
 				if o, ok := pickKind("tcp", "fifo", "adapter"); ok {
